@@ -127,6 +127,7 @@ class Module:
         self.defs = {}                # name -> [cond]
         self.globs = False
         self.glob_sources = []        # (path segments, cond of the use item)
+        self.bodies = {}              # name -> [(kind, cond, hash of the item's tokens)]
         self.children = {}
 
 
@@ -274,6 +275,10 @@ class Crate:
         if j >= e:
             return
         kw = toks[j][1]
+        if kw == 'const' and j + 1 < e and toks[j + 1][1] in ('fn', 'unsafe', 'async'):
+            while j + 1 < e and toks[j][1] != 'fn':
+                j += 1
+            kw = 'fn'
         if kw == 'mod' and j + 1 < e and toks[j + 1][0] == 'id':
             name = toks[j + 1][1]
             sub = mpath + (name,)
@@ -305,6 +310,9 @@ class Crate:
             name = toks[j + 1][1]
             if not in_fn:
                 mod.defs.setdefault(name, []).append(cond)
+                if kw in ('const', 'static', 'fn', 'type'):
+                    import hashlib
+                    mod.bodies.setdefault(name, []).append((kw, cond, hashlib.md5(' '.join(t[1] for t in toks[j:e]).encode()).hexdigest(), file))
         if kw in ('impl', 'trait', 'fn') or (kw in ITEM_KW):
             # body: scan nested items (methods of impl/trait blocks) and references
             b = j
